@@ -390,7 +390,7 @@ fn script_set(three: bool) -> BoxedStrategy<ScriptSet> {
 pub fn run(ctx: &Ctx, rep: &mut Report) {
     rep.assume("the handler is driven through &mut self, so the harness owns the schedule: an interleaving is an order of whole exchanges (request in, response out)");
     rep.assume("each transfer's requests are fixed by running it alone first with an adaptive client; the application's reply is a function of the transfer and of the request it is shown");
-    let n = ctx.cases(48, 400);
+    let n = ctx.cases(240, 2_000);
     run_prop(
         ctx,
         rep,
@@ -400,7 +400,7 @@ pub fn run(ctx: &Ctx, rep: &mut Report) {
         || script_set(false),
         check_set,
     );
-    let n = ctx.cases(16, 160);
+    let n = ctx.cases(64, 600);
     run_prop(
         ctx,
         rep,
